@@ -1,5 +1,6 @@
 import CoclsModel.Proto
 import CoclsModel.SharedFuture
+import CoclsModel.SharedFutureApi
 /-! Driver for C17: runs the micro-step shared_future model on the scenarios of harness/h_shared_future.cpp. -/
 open Cocls Cocls.Proto Cocls.SharedFuture
 
@@ -141,6 +142,96 @@ def runCase (hdr : List String) (body : List (List String)) : List String := Id.
   let lines := out.push s!"final live={if s1.freed = 0 then 1 else 0} frees={s1.freed} vbal=0 ebal=0"
   return (lines.toList ++ ["end"])
 
+/-! ## case kind `api`: the sequential API-level model (`SharedFutureApi.lean`, harness/h_shared_future_api.cpp) -/
+namespace Api
+open Cocls.SharedFutureApi
+
+def obsS : SharedFutureApi.Obs → String
+  | .val v => s!"v:{v}"
+  | .moved => "moved"
+  | .exc c => s!"exc:{c}"
+  | .canceled => "canceled"
+  | .notready => "notready"
+
+def kS : Option Nat → String
+  | some k => s!"s{k}"
+  | none => "s-"
+
+def outS : Out → String
+  | .h i => s!"h{i}"
+  | .hs i k => s!"h{i} s{k}"
+  | .ok => "ok"
+  | .gone => "gone"
+  | .pre => "pre"
+  | .ret => "ret 1"
+  | .b k b => s!"{kS k} {boolStr b}"
+  | .o k o => s!"{kS k} {obsS o}"
+  | .j k o => match o with
+      | .val _ => s!"s{k} returned"
+      | .moved => s!"s{k} returned"
+      | o => s!"s{k} {obsS o}"
+  | .done k => s!"s{k} synced"
+  | .sub k w => s!"s{k} w{w}"
+  | .took k o => s!"{kS k} took {obsS o}"
+
+def evS : SharedFutureApi.Ev → String
+  | .obs w k o => s!"obs w{w} {match k with | .coro => "coro" | .cb => "cb"} {obsS o}"
+  | .freed k => s!"freed s{k}"
+
+def sortStr (xs : List String) : List String := xs.mergeSort (fun a b => !(b < a))
+
+def parseSp : String → Option Sp
+  | "ready" => some .ready | "value" => some .value | "cready" => some .cready | "cpending" => some .cpending
+  | "cinit" => some .cinit | "cvalue" => some .cvalue | "wait" => some .wait | "fwait" => some .fwait
+  | "join" => some .join | "sync" => some .sync | "fsync" => some .fsync | "cwait" => some .cwait
+  | "cjoin" => some .cjoin | "cderef" => some .cderef | "chasv" => some .chasv | "cbool" => some .cbool
+  | "cnot" => some .cnot | "coro" => some .coro | "cb" => some .cb
+  | _ => none
+
+def parseOp (ws : List String) : Option Op :=
+  match ws with
+  | ["new"] => some .new
+  | ["mk", "pf"] => some (.mk .pf)
+  | ["mk", "ff"] => some (.mk .ff)
+  | ["mk", "sv", v] => v.toNat?.map (fun v => .mk (.sv v))
+  | ["mk", "se", c] => c.toNat?.map (fun c => .mk (.se c))
+  | ["copy", i] => i.toNat?.map .copy
+  | ["assign", i, j] => match i.toNat?, j.toNat? with
+      | some i, some j => some (.assign i j)
+      | _, _ => none
+  | ["drop", i] => i.toNat?.map .drop
+  | ["init", i] => i.toNat?.map .init
+  | ["getp", i] => i.toNat?.map .getp
+  | ["lshift", i] => i.toNat?.map .lshift
+  | ["take", i] => i.toNat?.map .take
+  | ["resolve", k, "value", v] => match k.toNat?, v.toNat? with
+      | some k, some v => some (.resolve k (.value v))
+      | _, _ => none
+  | ["resolve", k, "exc", c] => match k.toNat?, c.toNat? with
+      | some k, some c => some (.resolve k (.exc c))
+      | _, _ => none
+  | ["resolve", k, "drop"] => k.toNat?.map (fun k => .resolve k .drop)
+  | ["resolve", k, "dtor"] => k.toNat?.map (fun k => .resolve k .dtor)
+  | [sp, i] => match parseSp sp, i.toNat? with
+      | some sp, some i => some (.see sp i)
+      | _, _ => none
+  | _ => none
+
+def runCase (body : List (List String)) : List String := Id.run do
+  let mut s : St := SharedFutureApi.init
+  let mut out : Array String := #[]
+  for ws in body do
+    match parseOp ws with
+    | none => out := out.push "?"
+    | some op =>
+        let (s', o, evs) := step s op
+        s := s'
+        out := out.push (withEvents (outS o) (sortStr (evs.map evS)))
+  out := out.push (withEvents "end alive=0 vbal=0 ebal=0" (sortStr ((endEvs s).map evS)))
+  return out.toList
+
+end Api
+
 partial def loop (lines : Array String) (i : Nat) (hdr : List String) (body : List (List String)) : IO Unit := do
   if h : i < lines.size then
     let ws := words lines[i]
@@ -149,7 +240,7 @@ partial def loop (lines : Array String) (i : Nat) (hdr : List String) (body : Li
         loop lines (i+1) ws []
     | ["end"] =>
         IO.println s!"case {hdr[1]?.getD "?"}"
-        for l in runCase hdr body.reverse do IO.println l
+        for l in (if hdr[2]? == some "api" then Api.runCase body.reverse else runCase hdr body.reverse) do IO.println l
         loop lines (i+1) [] []
     | [] => loop lines (i+1) hdr body
     | _ => loop lines (i+1) hdr (ws :: body)
